@@ -510,6 +510,19 @@ func (ck *checker) check(op string, p jpref.Path, d0 any, enum bool, modKind str
 	case "Set", "SetOne":
 		ck.setPost(op, p, d0, d, l0, out0, val, class, cs)
 	}
+	// *One forms on the gen twin: which location is taken may depend on map order, but whether anything was
+	// changed must be the same on simple and gen data (RemoveOne / ModifyOne only count real changes)
+	switch op {
+	case "RemoveOne", "ModifyOne":
+		gres, gerr, gpn := apply(op, x, toGen(d0), gen.String("S"), mod)
+		c.Cover("twin:gen")
+		c.Eval(1)
+		if gpn == nil && gerr == nil {
+			if a, b := eq(result, d0), eq(gres, d0); a != b {
+				c.Violation("jp.Expr."+op+"(gen)", "one-form-changed-on-one-representation-only", class, cs, fmt.Sprint("simple data changed: ", !a), fmt.Sprint("gen data changed: ", !b))
+			}
+		}
+	}
 	// gen twin
 	switch op {
 	case "Del", "Remove", "Modify":
